@@ -603,6 +603,25 @@ def gen(repo):
     out.append("  end.\n")
     out.append("Definition covered_fns : list (string * string) :=\n  [ " + ";\n    ".join(
         "(%s, %s)" % (coq_str(r), coq_str(f)) for (r, f) in sorted(covered)) + " ].\n")
+    # ---- apply_config: is the handle's in-memory config replaced before or after it is stored
+    csrc, (_, cb, ce) = find_fn(S, "commands/config.rs", "apply_config")
+    cbody = csrc[cb:ce]
+    sets = [m.start() for m in re.finditer(r"\.set_config\s*\(", cbody)]
+    saves = [m.start() for m in re.finditer(r"(?<![\w.])save_config\s*\(", cbody)]
+    if len(sets) != 1 or len(saves) != 1:
+        raise ExtractError("apply_config: expected exactly one set_config and one save_config call (found %d / %d)" % (len(sets), len(saves)))
+    if not re.search(r"save_config\s*\([^;]*\)\s*\?\s*;", cbody):
+        raise ExtractError("apply_config: a failing save_config is no longer propagated with `?`")
+    out.append("(* commands/config.rs apply_config: `repo.set_config(new)` %s `save_config(..)?` *)" % ("precedes" if sets[0] < saves[0] else "follows"))
+    out.append("Definition config_set_before_save : bool := %s.\n" % ("true" if sets[0] < saves[0] else "false"))
+    meta["config_set_before_save"] = sets[0] < saves[0]
+    # save_config: cold (authoritative) config first, then the hot copy
+    ssrc, (_, sb, se) = find_fn(S, "commands/config.rs", "save_config")
+    sbody = ssrc[sb:se]
+    i1 = sbody.find("save_file_uncompressed"); i2 = sbody.find("save_config_hot")
+    if i1 < 0 or i2 < 0:
+        raise ExtractError("save_config: expected a save_file_uncompressed call and a save_config_hot call")
+    out.append("Definition config_cold_before_hot : bool := %s.\n" % ("true" if i1 < i2 else "false"))
     out.append("Definition flag_names : list (N * string) :=\n  [ " + ";\n    ".join(
         "(%d%%N, %s)" % (v, coq_str(k)) for k, v in sorted(FLAGS.items(), key=lambda x: x[1])) + " ].\n")
     meta["flags"] = dict(FLAGS)
